@@ -119,7 +119,14 @@ def _case(i):
             fkind, data = corrupt(rng, text.encode('utf-8'))
         # ---- file name
         nk = rng.random()
-        if nk < 0.8:
+        if nk < 0.12:
+            # long and / or multi-byte file names (listings and diagnostics print them, possibly shortened or padded)
+            stem = rng.choice(['안녕하세요_세계_프로그램_예제', '프로그램' * rng.randint(3, 12), 'a' * rng.choice([36, 37, 38, 39, 40, 41, 100, 200]),
+                               '😀' * rng.randint(5, 20), 'name with spaces and [brackets] %d' % rng.randint(0, 9), 'é' * rng.randint(15, 60),
+                               'x' * rng.randint(30, 40) + '한글' * rng.randint(1, 5)])
+            fname, nkind = stem + '.hyeong', 'hyeong'
+            res['hist']['name:long_or_multibyte'] = 1
+        elif nk < 0.8:
             fname, nkind = 'x.hyeong', 'hyeong'
         elif nk < 0.86:
             fname, nkind = 'x.txt', 'wrong_extension'
@@ -256,7 +263,7 @@ def main(tier, seed):
     }
     assumptions = ['for valid admitted programs the reference interpreter predicts the class (status 0, requested 1, encoding error, invalid input on a line the program reads)',
                    'programs the model cannot finish are only `check`ed', 'a wall-clock watchdog alone is inconclusive']
-    minimum = {'invocations': (hist.get('invocations', 0), 1500), 'invalid utf-8 files': (sum(v for k, v in hist.items() if k in ('file:byte_flips', 'file:truncated', 'file:overlong', 'file:lone_continuation', 'file:utf16')), 100),
+    minimum = {'long or multi-byte file names': (hist.get('name:long_or_multibyte', 0), 100), 'invocations': (hist.get('invocations', 0), 1500), 'invalid utf-8 files': (sum(v for k, v in hist.items() if k in ('file:byte_flips', 'file:truncated', 'file:overlong', 'file:lone_continuation', 'file:utf16')), 100),
                'stdin errors predicted': (hist.get('predicted:stdin_error', 0), 10), 'encoding errors predicted': (hist.get('predicted:encerr', 0), 5),
                'load errors': (hist.get('predicted:load_error', 0), 100)}
     return rep.finish(cov, assumptions, t0, minimum)
